@@ -20,6 +20,7 @@ import (
 	"verif/rng"
 	"verif/run"
 	"verif/sched"
+	"verif/sconn"
 )
 
 var c15 struct {
@@ -92,6 +93,7 @@ func newLcServer(listeners string) *lcServer {
 }
 
 func (s *lcServer) dial(tlsPort bool) (*tcpClient, error) {
+	sconn.NextSeq() // progress for the child watchdog
 	if tlsPort {
 		d := &net.Dialer{Timeout: 5 * time.Second}
 		c, err := tls.DialWithDialer(d, "tcp", fmt.Sprintf("127.0.0.1:%d", s.tls), s.p.ClientConfig(pki.CredRight))
@@ -199,7 +201,7 @@ func clientClosed(c *tcpClient) bool {
 func c15setup(tier string, seed uint64) int {
 	c15.seed, c15.tier = seed, tier
 	c15.gated = nil
-	reps := map[string]int{"quick": 1, "thorough": 5}[tier]
+	reps := map[string]int{"quick": 1, "thorough": 12}[tier]
 	pos := []string{"before", "after-open", "concurrent"}
 	for rep := 0; rep < reps; rep++ {
 		for _, p := range pos {
@@ -215,7 +217,7 @@ func c15setup(tier string, seed uint64) int {
 		}
 		// Stop while many clients are connecting (free-running: the window between "is the registry stopped?"
 		// and "register" has no schedule point, so it is exercised by repetition)
-		storms := map[string]int{"quick": 24, "thorough": 60}[tier]
+		storms := map[string]int{"quick": 24, "thorough": 100}[tier]
 		for k := 0; k < storms; k++ {
 			c15.gated = append(c15.gated, c15gated{Kind: "stop-under-connect-storm", Listeners: []string{"plain", "both"}[k%2], Rep: rep*1000 + k})
 		}
